@@ -13,7 +13,8 @@ import time
 import tlc
 
 VERIF = tlc.VERIF
-EVID = os.path.join(VERIF, "evidence")
+# VERIF_EVIDENCE_DIR: used only by the seed audit, so that runs against seeded changes never touch /verif/evidence
+EVID = os.environ.get("VERIF_EVIDENCE_DIR") or os.path.join(VERIF, "evidence")
 KF_FILE = os.path.join(VERIF, "known_findings.jsonl")
 NCPU = min(16, os.cpu_count() or 4)
 
